@@ -790,6 +790,30 @@ pub fn suite_clirefuse(dir: &str, seed: u64, _thorough: bool, st: &mut Stats) {
         if !extra.is_empty() { st.violation("C16", &format!("{}: extra files left: {:?}", line, extra), &line); }
         lines.push((line, format!("{} {}", if code == 0 { "OK" } else { "FAIL" }, state)));
     }, st, &mut out);
+    // the meaning the command model gives to an open of the output (`open_output` in Model/Cmd.v: create, create_new,
+    // truncate on an absent / existing path) against the OpenOptions the commands use (tokio's are std's): all flag
+    // combinations, not only those the commands can reach
+    for cr in [false, true] { for cn in [false, true] { for tr in [false, true] {
+        for outkind in ["absent", "regular", "regular-empty"] {
+            let s = Scn::new("oo", (cr as u64) * 4 + (cn as u64) * 2 + tr as u64);
+            let prior: Vec<u8> = if outkind == "regular" { vec![9, 9, 9] } else { vec![] };
+            if outkind != "absent" { s.write("out.bin", &prior); }
+            let r = std::fs::OpenOptions::new().write(true).create(cr).create_new(cn).truncate(tr).open(s.p("out.bin"));
+            let ok = r.is_ok();
+            drop(r);
+            let now = s.read("out.bin");
+            let state = match (&now, outkind != "absent") {
+                (None, false) => "absent".to_string(),
+                (None, true) => "removed".to_string(),
+                (Some(d), true) if *d == prior => "unchanged".to_string(),
+                (Some(d), true) => format!("modified:{}", d.len()),
+                (Some(d), false) => format!("created:{}", d.len()),
+            };
+            st.evaluations += 1;
+            st.count("openopts");
+            out.push(&format!("openopts {} {} {} {}", cr as u8, cn as u8, tr as u8, outkind), &format!("{} {}", if ok { "OK" } else { "FAIL" }, state));
+        }
+    } } }
     out.finish();
 }
 
